@@ -425,6 +425,14 @@ def correspondence(chk, n, variant, run_dynamic=True):
 C04_CFGS = [
     ('mh-explicit', {'nparams': 2, 'props': [('plain', [0], False), ('plain', [1], False)], 'kind': ('mh',),
                      'nchains': 3, 'seed': 101}, {}),
+    # "all seeds": 0 is a seed like any other (and the one most easily mistaken for "no seed"), and so
+    # is a very large one
+    ('mh-seed-zero', {'nparams': 2, 'props': [('plain', [0], False), ('plain', [1], False)], 'kind': ('mh',),
+                      'nchains': 2, 'seed': 0}, {}),
+    ('pt-seed-zero', {'nparams': 2, 'props': [('plain', [0], False), ('plain', [1], False)], 'kind': ('pt', 2, False),
+                      'nchains': 2, 'seed': 0}, {}),
+    ('mh-seed-huge', {'nparams': 2, 'props': [('plain', [0], False), ('plain', [1], False)], 'kind': ('mh',),
+                      'nchains': 2, 'seed': 2 ** 70 + 3}, {}),
     ('mh-one-defaulted', {'nparams': 2, 'props': [('plain', [0], True)], 'kind': ('mh',), 'nchains': 2, 'seed': 102},
      {'blobs': True}),
     ('mh-two-defaulted', {'nparams': 3, 'props': [('plain', [1], False)], 'kind': ('mh',), 'nchains': 2, 'seed': 103},
